@@ -685,3 +685,378 @@ Section Deps.
   Qed.
 
 End Deps.
+
+(* ================================================================================================== *)
+(* Part B: real numbers                                                                                *)
+(* ================================================================================================== *)
+From Coq Require Import Reals Lra.
+From CV Require Import Base.RNum.
+
+Section Real.
+  Context {BS : Type}.
+  Variables fixed efix : bool.
+  Notation var := (@var R).
+  Notation bias := (@bias R BS).
+  Notation cvc := (@cvc_in R).
+  Local Open Scope R_scope.
+
+  Ltac rops := cbn [nadd nsub nmul ndiv nneg n0 n1 nofZ Rops] in *.
+
+  Fixpoint rsum (l : list R) : R := match l with [] => 0 | x :: r => x + rsum r end.
+
+  Lemma rsum_app l1 l2 : rsum (l1 ++ l2) = rsum l1 + rsum l2.
+  Proof. induction l1 as [|x r IH]; cbn [rsum app]; [lra | rewrite IH; lra]. Qed.
+
+  Lemma rsum_map_add {A} (f g : A -> R) l : rsum (map (fun x => f x + g x) l) = rsum (map f l) + rsum (map g l).
+  Proof. induction l as [|x r IH]; cbn [rsum map]; [lra | rewrite IH; lra]. Qed.
+
+  Lemma rsum_map_scal {A} (c : R) (f : A -> R) l : rsum (map (fun x => c * f x) l) = c * rsum (map f l).
+  Proof. induction l as [|x r IH]; cbn [rsum map]; [lra | rewrite IH; lra]. Qed.
+
+  Lemma rsum_map_mulr {A} (c : R) (f : A -> R) l : rsum (map (fun x => f x * c) l) = rsum (map f l) * c.
+  Proof. induction l as [|x r IH]; cbn [rsum map]; [lra | rewrite IH; lra]. Qed.
+
+  Lemma rsum_map_zero {A} (f : A -> R) l : (forall x, In x l -> f x = 0) -> rsum (map f l) = 0.
+  Proof.
+    induction l as [|x r IH]; intros H; cbn [rsum map]; [reflexivity|].
+    rewrite (H x (or_introl eq_refl)), IH; [lra|]. intros y Hy; apply H; right; exact Hy.
+  Qed.
+
+  Lemma rsum_map_ext {A} (f g : A -> R) l : (forall x, In x l -> f x = g x) -> rsum (map f l) = rsum (map g l).
+  Proof.
+    induction l as [|x r IH]; intros H; cbn [rsum map]; [reflexivity|].
+    rewrite (H x (or_introl eq_refl)), IH; [reflexivity|]. intros y Hy; apply H; right; exact Hy.
+  Qed.
+
+  (* sum over a list = sum over its indices *)
+  Lemma rsum_index {A} (F : A -> R) (G : nat -> R) (l : list A) : forall off,
+    (forall i x, nth_error l i = Some x -> F x = G (off + i)%nat) ->
+    rsum (map F l) = rsum (map G (seq off (length l))).
+  Proof.
+    induction l as [|x r IH]; intros off H; [reflexivity|].
+    cbn [map rsum length seq]. rewrite (H 0%nat x eq_refl), Nat.add_0_r. f_equal.
+    apply IH. intros i y Hi. rewrite (H (S i) y Hi). f_equal. lia.
+  Qed.
+
+  (* ---- closed form of colvar::communicate_forces ------------------------------------------------ *)
+  Definition gk (gs : list (nat * R)) (k : nat) : R :=
+    rsum (map (fun ag => if Nat.eqb (fst ag) k then snd ag else 0) gs).
+  Definition cfac (c : cvc) : R :=
+    ci_coeff c * IZR (Z.of_nat (ci_np c)) * ipow Rops (ci_val c) (ci_np c - 1).
+  Definition gsum (cs : list cvc) (k : nat) : R :=
+    rsum (map (fun c => cfac c * gk (ci_grads c) k) cs).
+
+  Lemma acc_grads_closed k cf gs : forall acc, acc_grads Rops k cf gs acc = acc + cf * gk gs k.
+  Proof.
+    unfold acc_grads, gk. induction gs as [|ag r IH]; intros acc; cbn [fold_left map rsum]; [lra|].
+    rewrite IH. destruct (Nat.eqb (fst ag) k); rops; lra.
+  Qed.
+
+  Lemma acc_cvcs_closed k f cs : forall acc,
+    fold_left (fun ac c => acc_grads Rops k (cvc_force Rops f c) (ci_grads c) ac) cs acc = acc + f * gsum cs k.
+  Proof.
+    unfold gsum. induction cs as [|c r IH]; intros acc; cbn [fold_left map rsum]; [lra|].
+    rewrite IH, acc_grads_closed. unfold cvc_force, cfac. rops. lra.
+  Qed.
+
+  Definition vterm (k : nat) (v : var) : R :=
+    if var_applies v then v_f v * gsum (v_cvcs v) k else 0.
+
+  Lemma coord_force_closed vs k : coord_force Rops vs k = rsum (map (vterm k) vs).
+  Proof.
+    unfold coord_force. rops.
+    assert (G : forall acc, fold_left (fun ac v => acc_var Rops k v ac) vs acc = acc + rsum (map (vterm k) vs)).
+    { induction vs as [|v r IH]; intros acc; cbn [fold_left map rsum]; [lra|].
+      rewrite IH. unfold acc_var, vterm. destruct (var_applies v); [rewrite acc_cvcs_closed|]; lra. }
+    rewrite G. lra.
+  Qed.
+
+  (* ---- energy ---------------------------------------------------------------------------------------- *)
+  Definition EN (bs : list bias) : R :=
+    rsum (map (fun b => if counts_energy efix b then b_energy b else 0) bs).
+
+  Lemma total_energy_closed bs : total_energy Rops efix bs = EN bs.
+  Proof.
+    unfold total_energy, EN. rops.
+    assert (G : forall acc, fold_left (fun acc b => if counts_energy efix b then nadd Rops acc (b_energy b) else acc) bs acc
+                            = acc + rsum (map (fun b => if counts_energy efix b then b_energy b else 0) bs)).
+    { induction bs as [|b r IH]; intros acc; cbn [fold_left map rsum]; [lra|].
+      rewrite IH. destruct (counts_energy efix b); rops; lra. }
+    rewrite G. lra.
+  Qed.
+
+  (* ---- forces from the biases to the variables ---------------------------------------------------- *)
+  Fixpoint contrib (ids : list nat) (fs : list R) (i : nat) : R :=
+    match ids, fs with
+    | j :: ids', f :: fs' => (if Nat.eqb j i then f else 0) + contrib ids' fs' i
+    | _, _ => 0
+    end.
+
+  Definition bforce (b : bias) (i : nat) : R :=
+    if b_active b && b_apply b then IZR (b_tsf b) * contrib (b_vars b) (b_forces b) i else 0.
+  Definition VF (bs : list bias) (i : nat) : R := rsum (map (fun b => bforce b i) bs).
+  Definition CF (bs : list bias) (xs : list (list cvc)) (nv k : nat) : R :=
+    rsum (map (fun i => VF bs i * gsum (nth i xs []) k) (seq 0 nv)).
+
+  Lemma contrib_zero ids : forall fs i, cnt ids i = 0%nat -> contrib ids fs i = 0.
+  Proof.
+    induction ids as [|j r IH]; intros fs i H; [reflexivity|].
+    destruct fs as [|f fs']; [reflexivity|]. cbn [contrib].
+    rewrite cnt_cons in H. destruct (Nat.eqb i j) eqn:E; [discriminate|].
+    rewrite Nat.eqb_sym, E. rewrite IH; [lra | exact H].
+  Qed.
+
+  (* everything but fb/fb_actual is kept, and their sum grows by d *)
+  Definition FBrel (d : R) (v v' : var) : Prop :=
+    same_deps v v' /\ v_x v' = v_x v /\ v_cvcs v' = v_cvcs v /\
+    v_fb v' + v_fba v' = v_fb v + v_fba v + d.
+
+  Lemma FBrel_trans d1 d2 v1 v2 v3 : FBrel d1 v1 v2 -> FBrel d2 v2 v3 -> FBrel (d1 + d2) v1 v3.
+  Proof.
+    unfold FBrel, same_deps. intros (S1 & X1 & C1 & F1) (S2 & X2 & C2 & F2).
+    repeat split; try (intuition congruence). lra.
+  Qed.
+
+  Lemma FBrel_refl v : FBrel 0 v v.
+  Proof. unfold FBrel, same_deps. repeat split; lra. Qed.
+
+  Lemma add_forces_rel byp t ids : forall fs vs,
+    length (fst (add_forces Rops byp t ids fs vs)) = length vs /\
+    forall i v, nth_error vs i = Some v ->
+      exists v', nth_error (fst (add_forces Rops byp t ids fs vs)) i = Some v' /\ FBrel (t * contrib ids fs i) v v'.
+  Proof.
+    induction ids as [|j r IH]; intros fs vs.
+    - cbn [add_forces fst contrib]. split; [reflexivity|]. intros i v Hi. exists v. split; [exact Hi|].
+      rewrite Rmult_0_r. apply FBrel_refl.
+    - destruct fs as [|f fs'].
+      + cbn [add_forces fst contrib]. split; [reflexivity|]. intros i v Hi. exists v. split; [exact Hi|].
+        rewrite Rmult_0_r. apply FBrel_refl.
+      + cbn [add_forces contrib].
+        set (u := fun v : var => if byp then set_vfb v (v_fb v) (nadd Rops (v_fba v) (nmul Rops t f))
+                                else set_vfb v (nadd Rops (v_fb v) (nmul Rops t f)) (v_fba v)).
+        destruct (IH fs' (upd_nth vs j u)) as [L1 H1].
+        destruct (add_forces Rops byp t r fs' (upd_nth vs j u)) as [vs2 e2]. cbn [fst] in *.
+        split; [rewrite L1; apply upd_nth_length|].
+        intros i v Hi.
+        assert (Hu : exists v1, nth_error (upd_nth vs j u) i = Some v1 /\ FBrel (if Nat.eqb j i then t * f else 0) v v1).
+        { rewrite upd_nth_nth, Hi. rewrite (Nat.eqb_sym j i). destruct (Nat.eqb i j).
+          - cbn [option_map]. eexists; split; [reflexivity|].
+            unfold u, FBrel, same_deps. destruct byp; destruct v; cbn; rops; repeat split; lra.
+          - exists v. split; [reflexivity | apply FBrel_refl]. }
+        destruct Hu as (v1 & Hv1 & R1).
+        destruct (H1 i v1 Hv1) as (v' & Hv' & R2).
+        exists v'. split; [exact Hv'|].
+        replace (t * ((if Nat.eqb j i then f else 0) + contrib r fs' i))
+          with ((if Nat.eqb j i then t * f else 0) + t * contrib r fs' i) by (destruct (Nat.eqb j i); lra).
+        eapply FBrel_trans; eassumption.
+  Qed.
+
+  Lemma communicate_bias_rel b vs :
+    length (fst (communicate_bias Rops b vs)) = length vs /\
+    forall i v, nth_error vs i = Some v ->
+      exists v', nth_error (fst (communicate_bias Rops b vs)) i = Some v' /\ FBrel (bforce b i) v v'.
+  Proof.
+    unfold communicate_bias, bforce. destruct (b_active b && b_apply b).
+    - apply add_forces_rel.
+    - cbn [fst]. split; [reflexivity|]. intros i v Hi. exists v. split; [exact Hi | apply FBrel_refl].
+  Qed.
+
+  Lemma communicate_biases_rel bs : forall vs,
+    length (fst (communicate_biases Rops bs vs)) = length vs /\
+    forall i v, nth_error vs i = Some v ->
+      exists v', nth_error (fst (communicate_biases Rops bs vs)) i = Some v' /\ FBrel (VF bs i) v v'.
+  Proof.
+    induction bs as [|b r IH]; intros vs.
+    - cbn [communicate_biases fst]. split; [reflexivity|]. intros i v Hi. exists v. split; [exact Hi | apply FBrel_refl].
+    - cbn [communicate_biases].
+      destruct (communicate_bias_rel b vs) as [L1 H1].
+      destruct (communicate_bias Rops b vs) as [vs1 e1]. cbn [fst] in *.
+      destruct (IH vs1) as [L2 H2].
+      destruct (communicate_biases Rops r vs1) as [vs2 e2]. cbn [fst] in *.
+      split; [congruence|]. intros i v Hi.
+      destruct (H1 i v Hi) as (v1 & Hv1 & R1). destruct (H2 i v1 Hv1) as (v2 & Hv2 & R2).
+      exists v2. split; [exact Hv2|]. unfold VF. cbn [map rsum]. eapply FBrel_trans; eassumption.
+  Qed.
+
+  (* no reference from an active applying bias: no force *)
+  Lemma bforce_zero (b : bias) i : c_app b i = 0%Z -> bforce b i = 0.
+  Proof.
+    unfold c_app, bforce. destruct (b_active b && b_apply b); [|reflexivity].
+    intros H. rewrite contrib_zero; [lra | lia].
+  Qed.
+
+  Lemma VF_zero (bs : list bias) i : arefs bs i = 0%Z -> VF bs i = 0.
+  Proof.
+    unfold VF. induction bs as [|b r IH]; intros H; [reflexivity|].
+    cbn [arefs] in H. cbn [map rsum].
+    pose proof (c_app_nonneg b i). pose proof (arefs_nonneg r i).
+    rewrite bforce_zero, IH; [lra | lia | lia].
+  Qed.
+
+  Lemma c_app_le_act (b : bias) i : (c_app b i <= c_act b i)%Z.
+  Proof. unfold c_app, c_act. destruct (b_active b), (b_apply b); cbn [andb]; lia. Qed.
+
+  Lemma arefs_le_refs (bs : list bias) i : (arefs bs i <= refs bs i)%Z.
+  Proof. induction bs as [|b r IH]; cbn [arefs refs]; [lia|]. pose proof (c_app_le_act b i). lia. Qed.
+
+  (* ---- the biases' side of one calc(): a pure function of the bias and of this step's values ----- *)
+  Definition fresh (nv : nat) (xs : list (list cvc)) (i : nat) : R :=
+    if (i <? nv)%nat then var_value Rops (nth i xs []) else 0.
+
+  Definition bias_update_pure (it : Z) (nv : nat) (xs : list (list cvc)) (b : bias) : bias :=
+    if b_active b then
+      let '(s', (e, fs)) := b_upd b (b_st b) it (map (fresh nv xs) (b_vars b)) in set_bout b s' e fs
+    else b.
+
+  Definition bias_step (it : Z) (nv : nat) (xs : list (list cvc)) (b : bias) : bias :=
+    bias_update_pure it nv xs (wake_self fixed it b).
+
+  Lemma calc_one_active it (v : var) cs :
+    v_active (calc_one Rops fixed it v cs) = true ->
+    v_x (calc_one Rops fixed it v cs) = var_value Rops cs /\ v_cvcs (calc_one Rops fixed it v cs) = cs.
+  Proof.
+    unfold calc_one. cbn zeta. destruct (v_active (fst (wake_var fixed it v))) eqn:E.
+    - intros _. destruct (fst (wake_var fixed it v)); cbn; auto.
+    - rewrite E. discriminate.
+  Qed.
+
+  Lemma refs_member (bs : list bias) b i : In b bs -> (c_act b i <= refs bs i)%Z.
+  Proof.
+    induction bs as [|b0 r IH]; intros H; [destruct H|]. cbn [refs].
+    destruct H as [->|H].
+    - pose proof (refs_nonneg r i). lia.
+    - pose proof (c_act_nonneg b0 i). specialize (IH H). lia.
+  Qed.
+
+  Lemma values_of_fresh it (bs : list bias) vs1 xs b :
+    VInv bs vs1 -> In b bs -> b_active b = true ->
+    values_of Rops (reset_fb Rops (fst (calc_vars Rops fixed it vs1 xs))) (b_vars b) =
+    map (fresh (length vs1) xs) (b_vars b).
+  Proof.
+    intros H Hb Ha. unfold values_of. apply map_ext_in. intros j Hj.
+    unfold fresh. destruct (Nat.ltb_spec j (length vs1)) as [L|L].
+    - destruct (nth_error vs1 j) as [v1|] eqn:E1; [|apply nth_error_None in E1; lia].
+      assert (E3 : nth_error (reset_fb Rops (fst (calc_vars Rops fixed it vs1 xs))) j =
+                   Some (set_vfb (calc_one Rops fixed it v1 (nth j xs [])) 0 0)).
+      { unfold reset_fb. rewrite nth_error_map, calc_vars_nth, E1. reflexivity. }
+      rewrite (nth_error_nth _ _ _ E3).
+      assert (Hact : v_active (calc_one Rops fixed it v1 (nth j xs [])) = true).
+      { pose proof (VI_calc_one Rops fixed it (refs bs j) (arefs bs j) v1 (nth j xs []) (refs_nonneg bs j) (H j v1 E1)) as (V1 & V2 & V3 & V4).
+        apply V3. pose proof (refs_member bs b j Hb) as M. unfold c_act in M. rewrite Ha in M.
+        assert (0 < cnt (b_vars b) j)%nat by (unfold cnt; apply count_occ_In; exact Hj).
+        destruct (v_awake (calc_one Rops fixed it v1 (nth j xs []))); cbn [b2z] in V1; lia. }
+      destruct (calc_one_active it v1 (nth j xs []) Hact) as [X1 _].
+      destruct (calc_one Rops fixed it v1 (nth j xs [])); cbn in *; exact X1.
+    - rewrite nth_overflow; [reflexivity|].
+      unfold reset_fb. rewrite map_length, calc_vars_length. exact L.
+  Qed.
+
+  Lemma c_update_pure it nv xs (b : bias) i :
+    c_act (bias_update_pure it nv xs b) i = c_act b i /\ c_app (bias_update_pure it nv xs b) i = c_app b i.
+  Proof.
+    unfold bias_update_pure. destruct (b_active b) eqn:Ea; [|auto].
+    destruct (b_upd b (b_st b) it (map (fresh nv xs) (b_vars b))) as [s' [e fs]].
+    unfold c_act, c_app. destruct b; cbn in *; auto.
+  Qed.
+
+  Lemma refs_update_pure it nv xs (bs : list bias) i :
+    refs (map (bias_update_pure it nv xs) bs) i = refs bs i /\
+    arefs (map (bias_update_pure it nv xs) bs) i = arefs bs i.
+  Proof.
+    induction bs as [|b r [IH1 IH2]]; [auto|]. cbn [map refs arefs].
+    destruct (c_update_pure it nv xs b i) as [-> ->]. rewrite IH1, IH2. auto.
+  Qed.
+
+  Lemma vterm_final k (v2 v4 : var) cs D r a :
+    VI r a v2 -> (0 <= r)%Z -> (0 <= a)%Z -> (a <= r)%Z -> (a = 0%Z -> D = 0) ->
+    (v_active v2 = true -> v_cvcs v2 = cs) ->
+    FBrel D (set_vfb v2 0 0) v4 ->
+    vterm k (update_force Rops v4) = D * gsum cs k /\ same_deps v2 (update_force Rops v4).
+  Proof.
+    intros (V1 & V2 & V3 & V4) Hr Ha Har HD Hcs ((S1 & S2 & S3 & S4 & S5) & X & C & F).
+    destruct v2 as [tsf2 act2 rc2 aw2 ap2 arc2 x2 cs2 fb2 fba2 f2].
+    destruct v4 as [tsf4 act4 rc4 aw4 ap4 arc4 x4 cs4 fb4 fba4 f4].
+    cbn in *. subst act4 rc4 aw4 ap4 arc4 x4 cs4.
+    unfold vterm, update_force, var_applies, same_deps. cbn.
+    destruct act2; cbn.
+    - split; [|tauto]. destruct ap2; cbn.
+      + rewrite (Hcs eq_refl). rops. replace (0 + fb4 + fba4) with D by lra. reflexivity.
+      + assert (a = 0%Z) as Ha0.
+        { destruct (Z_lt_dec 0 arc2) as [l|l]; [apply V4 in l; discriminate | lia]. }
+        rewrite (HD Ha0). lra.
+    - split; [|tauto].
+      assert (r = 0%Z) as Hr0.
+      { destruct (Z_lt_dec 0 rc2) as [l|l]; [specialize (V3 l); discriminate|]. destruct aw2; cbn [b2z] in V1; lia. }
+      rewrite HD; [lra | lia].
+  Qed.
+
+  (* ---- one calc(): closed form ------------------------------------------------------------------------ *)
+  Lemma calc_closed it vs (bs : list bias) xs :
+    VInv bs vs ->
+    let r := calc Rops fixed efix it vs bs xs in
+    let bs2 := map (bias_step it (length vs) xs) bs in
+    snd (fst (fst r)) = bs2 /\ VInv bs2 (fst (fst (fst r))) /\ length (fst (fst (fst r))) = length vs /\
+    snd r = EN bs2 /\ forall k, coord_force Rops (fst (fst (fst r))) k = CF bs2 xs (length vs) k.
+  Proof.
+    intros H. cbn zeta. unfold calc.
+    destruct (wake_biases_spec fixed it bs [] vs H) as (W1 & W2 & W3).
+    destruct (wake_biases fixed it bs vs) as [[bs1' vs1] e1]. cbn [fst snd app] in *. subst bs1'.
+    set (bs1 := map (wake_self fixed it) bs) in *.
+    pose proof (calc_vars_nth Rops fixed it vs1 xs) as C1.
+    pose proof (calc_vars_length Rops fixed it vs1 xs) as C2.
+    pose proof (VInv_calc_vars Rops fixed it bs1 vs1 xs W2) as C3.
+    assert (U : map (bias_update Rops it (reset_fb Rops (fst (calc_vars Rops fixed it vs1 xs)))) bs1
+                = map (bias_update_pure it (length vs) xs) bs1).
+    { apply map_ext_in. intros b Hb. unfold bias_update, bias_update_pure.
+      destruct (b_active b) eqn:Ea; [|reflexivity].
+      rewrite (values_of_fresh it bs1 vs1 xs b W2 Hb Ea), W3. reflexivity. }
+    destruct (calc_vars Rops fixed it vs1 xs) as [vs2 e2]. cbn [fst] in *.
+    rewrite U.
+    set (bs2 := map (bias_update_pure it (length vs) xs) bs1) in *.
+    assert (B2 : bs2 = map (bias_step it (length vs) xs) bs).
+    { unfold bs2, bs1, bias_step. rewrite map_map. reflexivity. }
+    destruct (communicate_biases_rel bs2 (reset_fb Rops vs2)) as [L4 H4].
+    destruct (communicate_biases Rops bs2 (reset_fb Rops vs2)) as [vs4 e3]. cbn [fst snd] in *.
+    rewrite <- B2.
+    assert (L3 : length (reset_fb Rops vs2) = length vs2) by (unfold reset_fb; apply map_length).
+    (* per-variable description of the final list *)
+    assert (P : forall i v5, nth_error (map (update_force Rops) vs4) i = Some v5 ->
+              exists v2, nth_error vs2 i = Some v2 /\ same_deps v2 v5 /\
+                         forall k, vterm k v5 = VF bs2 i * gsum (nth i xs []) k).
+    { intros i v5 Hi. rewrite nth_error_map in Hi.
+      destruct (nth_error vs4 i) as [v4|] eqn:E4; [|discriminate]. cbn in Hi. inversion Hi; subst v5. clear Hi.
+      assert (Li : (i < length vs2)%nat).
+      { assert (i < length vs4)%nat by (apply nth_error_Some; congruence). lia. }
+      destruct (nth_error vs2 i) as [v2|] eqn:E2; [|apply nth_error_None in E2; lia].
+      assert (E3 : nth_error (reset_fb Rops vs2) i = Some (set_vfb v2 0 0)).
+      { unfold reset_fb. rewrite nth_error_map, E2. reflexivity. }
+      destruct (H4 i _ E3) as (v4' & E4' & Rel). rewrite E4 in E4'. inversion E4'; subst v4'. clear E4'.
+      exists v2. split; [reflexivity|].
+      destruct (refs_update_pure it (length vs) xs bs1 i) as [Q1 Q2]. fold bs2 in Q1, Q2.
+      assert (Hcs : v_active v2 = true -> v_cvcs v2 = nth i xs []).
+      { rewrite C1 in E2. destruct (nth_error vs1 i) as [v1|]; [|discriminate]. cbn in E2. inversion E2; subst v2.
+        intros A. apply (calc_one_active it v1 (nth i xs []) A). }
+      assert (G : forall k, vterm k (update_force Rops v4) = VF bs2 i * gsum (nth i xs []) k /\
+                            same_deps v2 (update_force Rops v4)).
+      { intros k. apply (vterm_final k v2 v4 (nth i xs []) (VF bs2 i) (refs bs1 i) (arefs bs1 i)).
+        - apply C3; exact E2.
+        - apply refs_nonneg.
+        - apply arefs_nonneg.
+        - apply arefs_le_refs.
+        - intros Z0. apply VF_zero. rewrite Q2. exact Z0.
+        - exact Hcs.
+        - exact Rel. }
+      split; [apply (G 0%nat) | intros k; apply (G k)]. }
+    split; [reflexivity|]. split; [|split; [|split]].
+    - (* VInv *)
+      intros i v5 Hi. destruct (P i v5 Hi) as (v2 & E2 & SD & _).
+      destruct (refs_update_pure it (length vs) xs bs1 i) as [Q1 Q2]. fold bs2 in Q1, Q2.
+      unfold VInv in *. rewrite Q1, Q2. eapply VI_same_deps; [exact SD | apply C3; exact E2].
+    - rewrite map_length. lia.
+    - apply total_energy_closed.
+    - intros k. rewrite coord_force_closed. unfold CF.
+      replace (length vs) with (length (map (update_force Rops) vs4)) by (rewrite map_length; lia).
+      apply rsum_index. intros i v5 Hi. destruct (P i v5 Hi) as (_ & _ & _ & G). cbn [Nat.add]. apply G.
+  Qed.
+
+End Real.
